@@ -284,7 +284,7 @@ var checkQuantile = ev.Register("quantile", func(c *Case) ev.Outcome {
 		_ = first
 		mirrored := make([]float64, n)
 		for i, x := range c.Xs {
-			mirrored[i] = (asc[0] + asc[n-1]) - x
+			mirrored[i] = asc[0] + (asc[n-1] - x) // not (min+max)-x: the sum overflows for data in the top binades
 		}
 		copy(rx, mirrored) // overwrite in place, same length
 		ascM := append([]float64(nil), mirrored...)
@@ -327,7 +327,7 @@ func TestQuantile(t *testing.T) {
 		}
 		c := &Case{}
 		levels := rapid.IntRange(1, 2*n+1).Draw(rt, "levels")
-		vals := gen.Increasing(rt, levels, rapid.IntRange(0, 4).Draw(rt, "valStyle"), "vals")
+		vals := gen.Increasing(rt, levels, rapid.SampledFrom([]int{0, 1, 5, 2, 3, 4}).Draw(rt, "valStyle"), "vals")
 		c.Xs = make([]float64, n)
 		for i := range c.Xs {
 			c.Xs[i] = vals[rapid.IntRange(0, levels-1).Draw(rt, "lvl")]
